@@ -42,11 +42,25 @@ ASSUMPTIONS = [
 TRUSTED = ['harness/translate/registry.py', 'harness/translate/registry_lookup.py', 'harness/codec_common.py']
 
 _snap = None
+_structural = False     # the translator failed closed: layouts read structurally, real code judged without the model
+
+
+def _structural_snapshot(ctx):
+    global _snap, _structural
+    _snap, why = cc.structural_snapshot()
+    _structural = True
+    ctx.notes.append('translator failed closed (%s): the real codec is judged on assignments of the declared '
+                     'layouts against the round-trip law and the layout-derived wire format, without model '
+                     'comparison' % '; '.join(why[:3]))
 
 
 def translate(ctx):
     global _snap
-    _snap = registry.generate()
+    try:
+        _snap = registry.generate()
+    except lean.TieBroken:
+        _structural_snapshot(ctx)
+        raise
     registry_lookup.generate(_snap)
 
 
@@ -61,6 +75,10 @@ def _cases(fields, rng, tier):
     n_rand = 24 if tier == 'quick' else 400
     for i in range(n_rand):
         out.append(('random' if i % 3 else 'boundary', cc.assignment(fields, rng, 'random' if i % 3 else 'boundary')))
+    # every field in turn at the boundary patterns of its width (00.., FF.., 80 00.., 7F FF.., 01 .. in both byte
+    # orders), all optional tails present, the other fields all-zero / all-ones
+    for label, vals, _data in cc.boundary_encodings(fields, rng):
+        out.append(('layout-boundary', vals))
     return out
 
 
@@ -83,10 +101,18 @@ def _judge(ctx, idx, cls, info, mode, vals, model_enc, model_dec_of):
         code_s = 'ok ' + lean.hexs(real[1])
     else:
         code_s = cc.model_tag(real[0])
-    if (m.startswith('py:') and code_s.startswith('py:')):
+    if m is None or (m.startswith('py:') and code_s.startswith('py:')):
         pass
     elif m != code_s:
         ctx.disagree('encode', case, m, code_s)
+    # --- property, wire-format clause, judged against the encoder written from the layout alone (declared
+    # order, little-endian, LSB-first bit members): independent of the model, so it also works without it
+    if real[0] == 'ok':
+        want = cc.encode_layout(fields, vals)
+        if real[1] != want:
+            ctx.violate('C01:wire-format:%s' % name,
+                        'encoded bytes of %s differ from the declared-order / little-endian / LSB-first wire format'
+                        % name, case, expected='ok ' + lean.hexs(want), observed=code_s)
     if real[0] != 'ok':
         ctx.violate('C01:encode-raises:%s' % name,
                     'encoding %s with in-range values raises %s' % (name, real[0]), case,
@@ -544,7 +570,10 @@ def _run_histories(ctx, drv, rng, idx, cls, info, cases):
                     break
             recs.append((tag, {'class': name, 'op': 'history', 'init': init, 'steps': steps[:k], 'judged': k,
                                'layout': _layout(fields)}, rec))
-    models = drv.ask_many(['enc %d %s' % (idx, ' '.join(cc.show(v) for v in rec[1])) for _, _, rec in recs])
+    if drv is not None:
+        models = drv.ask_many(['enc %d %s' % (idx, ' '.join(cc.show(v) for v in rec[1])) for _, _, rec in recs])
+    else:
+        models = [None] * len(recs)
     for (tag, case, rec), m in zip(recs, models):
         ctx.case((name, 'history', tag, repr(case['init']), repr(case['steps'])))
         ctx.count('history:%s:%s' % (tag, rec[0]))
@@ -671,10 +700,13 @@ def _run_cc(ctx, drv, rng, idx, cls, info, full):
         vals = cc.assignment(fields, rng, mode)
         vals[0] = ('int', c)
         cases.append((mode, vals))
-    encs = drv.ask_many(['enc %d %s' % (idx, ' '.join(cc.show(v) for v in vals)) for _, vals in cases])
-    decs = iter(drv.ask_many(['dec %d %s' % (idx, e[3:]) for e in encs if e.startswith('ok ')]))
+    if drv is not None:
+        encs = drv.ask_many(['enc %d %s' % (idx, ' '.join(cc.show(v) for v in vals)) for _, vals in cases])
+        decs = iter(drv.ask_many(['dec %d %s' % (idx, e[3:]) for e in encs if e.startswith('ok ')]))
+    else:
+        encs, decs = [None] * len(cases), iter(())
     for (mode, vals), me in zip(cases, encs):
-        md = next(decs) if me.startswith('ok ') else None
+        md = next(decs) if me is not None and me.startswith('ok ') else None
         ctx.case((info['name'], 'nonok-cc', tuple(cc.show(v) for v in vals)))
         ctx.count('nonok-cc:' + ('all-255-codes' if full else 'boundary-codes'))
         ctx.count('nonok-cc:code:%s' % ('01-7F' if vals[0][1] < 0x80 else '80-BF' if vals[0][1] < 0xc0 else 'C0-FF'))
@@ -747,13 +779,23 @@ def _lookup_facts(ctx, snap, verbose_for=None):
 
 
 def run(ctx):
-    snap = _snap if _snap is not None else registry.snapshot()
+    if _snap is None:
+        try:
+            snap = registry.snapshot()
+        except lean.TieBroken as e:
+            ctx.broken.append(('translator', str(e)))
+            _structural_snapshot(ctx)
+            snap = _snap
+    else:
+        snap = _snap
     _registry_facts(ctx, snap)
     _lookup_facts(ctx, snap)
-    drv = ctx.driver('drv_codec')
-    if int(drv.ask('count')) != len(snap):
-        ctx.disagree('registry-size', {}, drv.ask('count'), str(len(snap)))
-        return
+    drv = None
+    if not _structural:
+        drv = ctx.driver('drv_codec')
+        if int(drv.ask('count')) != len(snap):
+            ctx.disagree('registry-size', {}, drv.ask('count'), str(len(snap)))
+            return
     rng = ctx.rng('c01')
     rsp = [i for i, (_, info) in enumerate(snap) if not info['malformed'] and _is_response_layout(info)]
     cc_full = set(rsp) if ctx.tier != 'quick' else set(ctx.rng('c01-cc-classes').sample(rsp, min(CC_FULL_CLASSES, len(rsp))))
@@ -764,12 +806,15 @@ def run(ctx):
             _run_cc(ctx, drv, ctx.rng('c01-cc/%s' % info['name']), idx, cls, info, idx in cc_full)
         fields = info['fields']
         cases = _cases(fields, rng, ctx.tier)
-        enc_lines = ['enc %d %s' % (idx, ' '.join(cc.show(v) for v in vals)) for _, vals in cases]
-        encs = drv.ask_many(enc_lines)
-        dec_lines = ['dec %d %s' % (idx, e[3:]) for e in encs if e.startswith('ok ')]
-        decs = iter(drv.ask_many(dec_lines))
+        if drv is not None:
+            enc_lines = ['enc %d %s' % (idx, ' '.join(cc.show(v) for v in vals)) for _, vals in cases]
+            encs = drv.ask_many(enc_lines)
+            dec_lines = ['dec %d %s' % (idx, e[3:]) for e in encs if e.startswith('ok ')]
+            decs = iter(drv.ask_many(dec_lines))
+        else:
+            encs, decs = [None] * len(cases), iter(())
         for (mode, vals), me in zip(cases, encs):
-            md = next(decs) if me.startswith('ok ') else None
+            md = next(decs) if me is not None and me.startswith('ok ') else None
             ctx.case((info['name'], tuple(cc.show(v) for v in vals)))
             ctx.count('mode:' + mode.rstrip('0123456789'))
             for f, v in zip(fields, vals):
@@ -803,7 +848,11 @@ def search(ctx):
 
 
 def replay(ctx, v):
-    snap = registry.snapshot()
+    try:
+        snap = registry.snapshot()
+    except lean.TieBroken as e:
+        print('translator fails closed on this tree (%s): layouts read structurally' % e)
+        snap, _ = cc.structural_snapshot()
     case = v['case']
     by_name = dict((info['name'], (i, cls, info)) for i, (cls, info) in enumerate(snap))
     if case.get('class') not in by_name:
@@ -861,7 +910,7 @@ def replay(ctx, v):
     if me:
         print('  proved wire format: %s' % me)
         return not (real[0] == 'ok' and 'ok ' + lean.hexs(real[1]) == me)
-    _judge(c2, idx, cls, info, case.get('mode', ''), vals, 'py:skip', None)
+    _judge(c2, idx, cls, info, case.get('mode', ''), vals, None, None)
     for x in c2.violations:
         print('  ' + x['what'])
     return bool(c2.violations)
